@@ -25,6 +25,8 @@ func checkC12(p *Prog, r *Report) {
 	rClose := r.Rule("who-closes-listener", "the listener is closed only on New's error paths and on the connected event under oneShell; the event loop keeps watching")
 	rExit := r.Rule("clean-exit", "net.ErrClosed becomes ErrOneShellClosed under oneShell itself, Shutdown follows Serve, and main treats ErrOneShellClosed as success")
 
+	checkC12ReqCtx(p, r, r.Rule("shell-undisturbed", "closing the listener does not cancel the attached shell: request contexts derive from the server's own context and nothing cancels them when Serve returns"))
+
 	rm := p.Func("", "", "rmain")
 	hnew := p.Func(hsrvPkg, "", "New")
 	if nil == rm || nil == hnew {
@@ -381,4 +383,127 @@ func globalLoadName(v ssa.Value) string {
 		return g.Name()
 	}
 	return ""
+}
+
+// checkC12ReqCtx: http.Server.BaseContext.
+func checkC12ReqCtx(p *Prog, r *Report, ru *Rule) {
+	n := 0
+	for _, fn := range p.Funcs() {
+		if nil == fn.Pkg || !strings.HasSuffix(fn.Pkg.Pkg.Path(), hsrvPkg) {
+			continue
+		}
+		eachInstr(fn, func(i ssa.Instruction) {
+			st, ok := i.(*ssa.Store)
+			if !ok {
+				return
+			}
+			fv, _ := fieldAddrOf(st.Addr)
+			if nil == fv || "BaseContext" != fv.Name() || nil == fv.Pkg() || "net/http" != fv.Pkg().Path() {
+				return
+			}
+			n++
+			c := fnName(fn) + ":BaseContext"
+			cl, _ := closureOf(stripConv(st.Val, false))
+			if nil == cl {
+				ru.Unproven(c, posOf(st), "BaseContext is not a function literal")
+				return
+			}
+			/* Shutdown call of the same function, for ordering. */
+			var shutdown ssa.Instruction
+			eachInstr(fn, func(j ssa.Instruction) {
+				if cc := callCommon(j); nil != cc && "(*net/http.Server).Shutdown" == calleeName(cc) {
+					shutdown = j
+				}
+			})
+			bad := false
+			through := func(n string) bool { return "context.WithValue" == n || "context.WithoutCancel" == n }
+			eachInstr(cl, func(j ssa.Instruction) {
+				ret, ok := j.(*ssa.Return)
+				if !ok {
+					return
+				}
+				for _, x := range valueRoots(resolveCell(retVal(ret, 0)), through) {
+					v := resolveCell(x.V)
+					if pa, ok := v.(*ssa.Parameter); ok && pa.Parent() == fn {
+						continue
+					}
+					var call *ssa.Call
+					switch y := v.(type) {
+					case *ssa.Call:
+						call = y
+					case *ssa.Extract:
+						call, _ = y.Tuple.(*ssa.Call)
+					}
+					if nil == call {
+						bad = true
+						ru.Bad(c, posOf(ret), "request contexts derive from %s, not from the server's own context", x)
+						continue
+					}
+					switch name := calleeName(call.Common()); name {
+					case "context.Background", "context.TODO":
+					case "context.WithCancel", "context.WithCancelCause":
+						/* Who calls the cancel function, and when? */
+						for _, u := range cancelUses(call) {
+							top := u.Parent()
+							if top != fn {
+								bad = true
+								ru.Bad(c, posOf(u), "the context requests run under is cancelled from %s: when Serve returns because the listener was closed (-one-shell) the attached shell is cut off, instead of being waited for by Shutdown", fnName(top))
+								continue
+							}
+							if _, isDefer := u.(*ssa.Defer); isDefer {
+								continue
+							}
+							if nil == shutdown || !instrDominates(shutdown, u) {
+								bad = true
+								ru.Bad(c, posOf(u), "the context requests run under is cancelled before Shutdown has waited for the attached shell")
+							}
+						}
+					default:
+						bad = true
+						ru.Bad(c, posOf(ret), "request contexts come from %s: the attached shell is cut off at a time unrelated to the operator ending the program", name)
+					}
+				}
+			})
+			if !bad {
+				ru.OK(c, posOf(st), "request contexts are the server's own context (or one cancelled only after Shutdown returned)")
+			}
+		})
+	}
+	if 0 == n {
+		ru.OK("BaseContext:default", token.NoPos, "no BaseContext set: requests use the background context")
+	}
+}
+
+// cancelUses: instructions which invoke (call, defer, go) result 1 of a
+// context.WithCancel-like call, in the function or its closures.
+func cancelUses(with *ssa.Call) []ssa.Instruction {
+	var cancel ssa.Value
+	for _, ref := range *with.Referrers() {
+		if e, ok := ref.(*ssa.Extract); ok && 1 == e.Index {
+			cancel = e
+		}
+	}
+	if nil == cancel {
+		return nil
+	}
+	var out []ssa.Instruction
+	for _, f := range withAnons(with.Parent()) {
+		eachInstr(f, func(i ssa.Instruction) {
+			cc := callCommon(i)
+			if nil == cc || cc.IsInvoke() {
+				return
+			}
+			if resolveCell(cc.Value) == cancel {
+				out = append(out, i)
+				return
+			}
+			/* Passed on, e.g. context.AfterFunc(x, cancel) or go helper(cancel). */
+			for _, a := range cc.Args {
+				if resolveCell(a) == cancel {
+					out = append(out, i)
+				}
+			}
+		})
+	}
+	return out
 }
